@@ -8,7 +8,10 @@ ID = "C16"
 LEAN_MODULES = ["LhasaV.Props.C16"]
 VH_FEATURES = ["reader"]
 PER_OP_SECONDS = 20
-THEOREMS = {"scan_finds_first": "full", "first_signature": "full", "prefix_transparent": "full", "prefix_transparent_zero": "full",
+THEOREMS = {"tool_kind_independent": "full: the whole tool (x/e/p/t/l...) behaves identically from a file, a pipe, callbacks with/without skip: flags, file system, stdout, stderr, exit status, headers",
+            "tool_prefix_transparent": "full: ... and after a self-extractor prefix (no signature/marker, first header within the scan limit), any two kinds",
+            "listing_kind_independent": "full",
+            "scan_finds_first": "full", "first_signature": "full", "prefix_transparent": "full", "prefix_transparent_zero": "full",
             "decoy_skipped": "full", "skip_kinds": "full", "kinds_agree": "full", "kinds_agree_n": "full"}
 TRUSTED = ["hand-written models LhasaV.Model.{Stream,Reader}; spec Stream.firstHeader (declarative scan) proved equal to the model's windowed scan",
            "harness: seekable temp file, pipe fed by a child process, callbacks with / without skip"]
@@ -173,5 +176,6 @@ LEVEL_TEXT = ("Lean theorems: the windowed self-extractor scan equals a declarat
               "one decoy per marker, exact 256 KiB+8 limit), prefix transparency and decoy skipping follow, and basic-reader states that "
               "differ only in the kind of source return the same headers for ever. Grouped differential runs over four stream kinds, "
               "prefixes and decoy stubs; `lha t A` vs `lha t -`.")
-LEVEL_NOTE = "Trusted: Lean kernel; hand models of stream and basic reader (differentially validated); '-' handling of the tool by correspondence only."
+LEVEL_NOTE = ("Trusted: Lean kernel; hand models of stream, reader and tool loops (differentially validated). Library AND tool level are proved "
+              "(tool_kind_independent, tool_prefix_transparent); the real `lha ... -` is additionally run against the file form.")
 TECHNIQUE = "Lean 4 proof (scan refinement to a declarative spec + kind-independence bisimulation) + grouped differential correspondence"
